@@ -215,7 +215,7 @@ def run(tier: str, seed: int) -> int:
             items.append((rc["sql"], d, tmpl, f"<rule {rc['id']}>", f"r{i}", {"configs": cfgs} if cfgs else None))
     items += other_templater_items(rnd, 60 if quick else 600)
     from . import c07
-    vctx = {"templater": {"jinja": {"context": {"x": 1, "t": "tt", "r": [1, 2], "y": 0}}}}
+    vctx = c07.VCTX
     for i, text in enumerate(c07.gen_variant_templates(rnd, 120 if quick else 2000)):
         items.append((text, "ansi", "jinja", f"<gen {i}>", f"g{i}", {"configs": vctx}))
     for i, f in enumerate(rep.findings):      # the listed findings' own witnesses are always part of the run
